@@ -194,7 +194,8 @@ CHECKS = {
         note="Trusted: the reference encoder's prediction of which documented error applies. Known finding D15 (DateTime<FixedOffset> beyond the date range) is reported.",
         technique="panic monitor + error-variant oracle over exhaustive chars and boundary values",
         level="exploration",
-        quick=NATIVE, thorough=NATIVE + [("fresh", 1.0, {"only": "fresh"})],
+        quick=NATIVE + [("dbg", 0.02, {"tz": "JST-9"}), ("rel", 0.02, {"tz": "EST5EDT,M3.2.0,M11.1.0"})],
+        thorough=NATIVE + [("fresh", 1.0, {"only": "fresh"}), ("dbg", 0.05, {"tz": "JST-9"}), ("rel", 0.05, {"tz": "EST5EDT,M3.2.0,M11.1.0"})],
         rule="chars: exhaustive (every scalar value is a distinct case); others: distinct by (type, value); non-trivial = all",
         floors={"any": {"unicode_scalars_checked": 1112064, "documented_error:LengthTooLarge": 12, "documented_error:UnknownFieldReferenceInEvolutionStep": 5, "encoded": 20000}},
         coverage_extra={"exhaustive_chars": True},
